@@ -222,9 +222,18 @@ harness!(segment_range_with_holes, 9, {
     assert!(r.range().is_none() == (rs == re));
 });
 
-// @harness props=C34 tier=quick timeout=900 desc="U64Segment::RangeWithBitmap (<=16 slots) and SortedArray/Array (<=3 values): len/contains/position/get agree with the expanded list"
-harness!(segment_bitmap_and_arrays, 18, {
-    let b = any_bitmap(16);
+// @harness props=C34 tier=quick timeout=900 desc="U64Segment::RangeWithBitmap (<=8 slots): len/contains/position agree with the expanded list"
+harness!(segment_bitmap, 10, {
+    segment_bitmap_case(8);
+});
+
+// @harness props=C34 tier=thorough timeout=1800 desc="U64Segment::RangeWithBitmap (<=16 slots, two bytes)"
+harness!(segment_bitmap_16, 18, {
+    segment_bitmap_case(16);
+});
+
+fn segment_bitmap_case(bits: usize) {
+    let b = any_bitmap(bits);
     let n = b.len();
     vnd::assume(n >= 1);
     let s: u64 = vnd::any();
@@ -236,7 +245,7 @@ harness!(segment_bitmap_and_arrays, 18, {
     let mut below = 0usize;
     let mut total = 0usize;
     let mut k = 0;
-    while k < 16 {
+    while k < bits {
         if k < n && b.get(k) {
             total += 1;
             if inr && (k as u64) < v - s {
@@ -249,12 +258,17 @@ harness!(segment_bitmap_and_arrays, 18, {
     assert!(seg.len() == total);
     assert!(seg.contains(v) == present);
     assert!(seg.position(v) == if present { Some(below) } else { None });
+}
 
+// @harness props=C34 tier=quick timeout=900 desc="U64Segment::SortedArray/Array (<=3 values): len/contains/position/get/range agree with the list"
+harness!(segment_arrays, 9, {
+    let v: u64 = vnd::any();
     let (vals, m) = any_values();
     vnd::assume(m >= 1);
     let arr = U64Segment::Array(EncodedU64Array::from(to_vec(&vals, m)));
     let i: usize = vnd::any();
     let has = (vals[0] == v) || (m > 1 && vals[1] == v) || (m > 2 && vals[2] == v);
+    vnd::cover!(has && m == 3 && vals[2] == v && vals[0] != v, "found in last position");
     assert!(arr.len() == m && arr.contains(v) == has);
     assert!(arr.get(i) == if i < m { Some(vals[i]) } else { None });
     match arr.position(v) {
